@@ -8,6 +8,7 @@ import (
 	"sort"
 	"strings"
 	"sync"
+	"sync/atomic"
 	"time"
 	"unsafe"
 
@@ -261,6 +262,30 @@ type PathResult struct {
 	Sample     string
 }
 
+// fallback: the engine cannot continue this path (an operation it does not
+// model). So that code behind such an operation is not silently skipped, a
+// sample of these paths is handed to the native build: inputs satisfying the
+// path condition so far are materialised and the harness is replayed on them
+// (concolic fallback; a sample, not a decision, and reported as such).
+func (w *Worker) fallback(p *Path, res *PathResult, msg string) {
+	n := atomic.AddInt64(&w.E.fallbackSeen, 1)
+	if !(n <= 16 || n&(n-1) == 0 || n%509 == 0) {
+		return
+	}
+	if atomic.AddInt64(&w.E.fallbackTaken, 1) > 64 {
+		return
+	}
+	defer func() { recover() }()
+	vec, ok := p.materialise(nil)
+	if ok {
+		res.Violations = append(res.Violations, &Violation{Label: FallbackLabel, Detail: msg, Vector: vec, Log: append([]int32(nil), p.log...)})
+	}
+}
+
+// FallbackLabel marks an input vector recorded for native replay because the
+// engine could not continue the path.
+const FallbackLabel = "fallback:unsupported"
+
 // RunPath executes the harness entry following prefix.
 func (w *Worker) RunPath(entry *ssa.Function, prefix []int32, collectFuncs bool) (res PathResult) {
 	if w.initErr != "" {
@@ -291,6 +316,9 @@ func (w *Worker) RunPath(entry *ssa.Function, prefix []int32, collectFuncs bool)
 				res.End, res.Msg = r.kind, r.msg
 				if r.kind == "unsupported" && p.errStack != "" {
 					res.Msg += "\n" + p.errStack
+				}
+				if r.kind == "unsupported" {
+					w.fallback(p, &res, r.msg)
 				}
 			case *goPanic:
 				// a panic escaped the harness: built-in violation
@@ -324,6 +352,7 @@ type Summary struct {
 	Decisions   int64
 	MaxDecision int
 	Violations  []*Violation
+	Fallbacks   []*Violation // inputs for native replay of paths the engine could not continue
 	Covers      map[string]int
 	Notes       map[string]int
 	Msgs        map[string]int // unsupported / unknown / budget messages
@@ -358,6 +387,8 @@ func (e *Engine) Explore(entryName string, o ExploreOpts) (*Summary, error) {
 		o.Workers = 1
 	}
 	sum := &Summary{Ends: map[string]int{}, Covers: map[string]int{}, Notes: map[string]int{}, Msgs: map[string]int{}, Funcs: map[string]int{}}
+	atomic.StoreInt64(&e.fallbackSeen, 0)
+	atomic.StoreInt64(&e.fallbackTaken, 0)
 	var mu sync.Mutex
 	cond := sync.NewCond(&mu)
 	work := [][]int32{nil}
@@ -406,6 +437,10 @@ func (e *Engine) Explore(entryName string, o ExploreOpts) (*Summary, error) {
 					sum.MaxDecision = r.Decisions
 				}
 				for _, v := range r.Violations {
+					if v.Label == FallbackLabel {
+						sum.Fallbacks = append(sum.Fallbacks, v)
+						continue
+					}
 					if o.MaxViolPer == 0 || perLabel[v.Label] < o.MaxViolPer {
 						perLabel[v.Label]++
 						sum.Violations = append(sum.Violations, v)
